@@ -601,6 +601,27 @@ def effective_config(model, text: str, settings: Settings, cfg=None) -> Effectiv
     )
 
 
+def rules_to_sx(g, model, names, tabs):
+    opt = model.optimized()       # the code generator optimizes the grammar before walking it too (ngparser_gen.pythongen)
+    rules_sx = []
+    for name, decorators, e in g['rules']:
+        r = opt.rulemap[name]
+        # @name / @nomemo are what the grammar TEXT says (docs/syntax.rst), not what the implementation made of it
+        is_name = bool(r.is_name) if 'name' not in decorators and 'isname' not in decorators else True
+        no_memo = bool(r.no_memo) if 'nomemo' not in decorators else True
+        rules_sx.append(f'(rule {int(bool(r.is_tokn))} {int(is_name)} {int(no_memo)} '
+                        f'{int(bool(r.is_lrec))} {int(bool(r.memoizable))} {exp_sx(e, names, tabs)})')
+    return rules_sx
+
+
+def genok_request(g, model) -> str:
+    """ask the model which rule bodies lie in the fragment on which GenEquiv.v proves generated parser = interpreter"""
+    names = {name: i for i, (name, _, _) in enumerate(g['rules'])}
+    tabs = Tables()
+    tabs.rule_exps = {n: x for n, _, x in g['rules']}
+    return f'(genok 1 (rules {" ".join(rules_to_sx(g, model, names, tabs))}))'
+
+
 def model_request(g, model, text: str, start: str | None, settings: Settings, semspec=('none', {}),
                   mode='f', fuel=None, flags_from_impl=True, cfg=None) -> str:
     """Build the modelrun_Engine request for this case. `cfg`: the resolved ParserConfig to use instead of the
@@ -612,15 +633,7 @@ def model_request(g, model, text: str, start: str | None, settings: Settings, se
     if 'keywords' not in settings.extra and (cfg is None or g.get('keywords')):
         # the reserved words are the ones the grammar text declares (quotes removed), not what the implementation's configuration ended up holding
         eff.keywords = sorted({k[1:-1] if len(k) >= 2 and k[0] == k[-1] and k[0] in '\'"' else k for k in g.get('keywords', [])})
-    opt = model.optimized()       # the code generator optimizes the grammar before walking it too (ngparser_gen.pythongen)
-    rules_sx = []
-    for name, decorators, e in g['rules']:
-        r = opt.rulemap[name]
-        # @name / @nomemo are what the grammar TEXT says (docs/syntax.rst), not what the implementation made of it
-        is_name = bool(r.is_name) if 'name' not in decorators and 'isname' not in decorators else True
-        no_memo = bool(r.no_memo) if 'nomemo' not in decorators else True
-        rules_sx.append(f'(rule {int(bool(r.is_tokn))} {int(is_name)} {int(no_memo)} '
-                        f'{int(bool(r.is_lrec))} {int(bool(r.memoizable))} {exp_sx(e, names, tabs)})')
+    rules_sx = rules_to_sx(g, model, names, tabs)
     ws = 'none' if eff.whitespace is None else f'(some {tabs.pid(eff.whitespace)})'
     cm = 'none' if eff.comments is None else f'(some {tabs.pid(eff.comments)})'
     eol = 'none' if eff.eol_comments is None else f'(some {tabs.pid(eff.eol_comments)})'
